@@ -386,7 +386,7 @@ func runTrunc(rep *Report, replay string) {
 		}
 		// cuts: every byte in the thorough tier; frame boundaries ± 2 and a random sample otherwise
 		cuts := map[int]bool{}
-		if rep.Tier == "thorough" || len(cs.data) < 1500 {
+		if (rep.Tier == "thorough" && !cs.sparseCuts) || len(cs.data) < 1500 {
 			for n := 0; n <= len(cs.data); n++ {
 				cuts[n] = true
 			}
@@ -405,7 +405,10 @@ func runTrunc(rep *Report, replay string) {
 			}
 			nRand := 400
 			if cs.sparseCuts {
-				nRand = 250
+				nRand = 250 // megabytes per restore: never every byte
+				if rep.Tier == "thorough" {
+					nRand = 3000
+				}
 			}
 			for i := 0; i < nRand; i++ {
 				cuts[r.Intn(len(cs.data)+1)] = true
